@@ -8,6 +8,7 @@
 #include "vsim/vsim.h"
 
 #include <string>
+#include <map>
 #include <vector>
 
 extern "C"
@@ -38,6 +39,7 @@ enum
     K_SCHED,
     K_BADFRAME,    // caller B: a frame call with a buffer that is too small (the device reports an error)
     K_FAILALLOC,   // the next SET meets an allocation failure (1st or 2nd buffer), is refused, and is retried
+    K_LIVESET,     // caller B, camera running with the frame trigger enabled: set again with another "enabled" value, or with the trigger disabled
     K_COUNT
 };
 
@@ -46,7 +48,7 @@ const VhKindSpec kKinds[K_COUNT] = {
     { "FRAME", 10, 3, 0, 0, 0 },         { "TRIGGER", 5, 0, 0, 0, 0 },           { "TRIG_FRAME", 4, 0, 0, 0, 0 },
     { "STOP", 3, 3, 0, 0, 0 },           { "SLEEP", 2, 255, 0, 0, 0 },           { "GET", 2, 0, 0, 0, 0 },
     { "SCHED", 4, 255, 65535, 65535, 65535 }, { "BADFRAME", 1, 0, 0, 0, 0 },
-    { "FAILALLOC", 1, 255, 0, 0, 0 },
+    { "FAILALLOC", 1, 255, 0, 0, 0 },         { "LIVESET", 2, 255, 0, 0, 0 },
 };
 
 enum
@@ -75,6 +77,8 @@ enum
     CL_SET_ALLOC_FAIL,
     CL_STRADDLE,
     CL_STALE_FAILURE,
+    CL_LIVESET_SAME,
+    CL_LIVESET_OFF,
 };
 
 const VhSpec kSpec = {
@@ -86,9 +90,9 @@ const VhSpec kSpec = {
     { "camera_random", "camera_sin", "camera_empty", "binning_gt1", "binning_rejected", "multibyte_type_odd_width", "shape_clamped",
       "frame_delivered", "two_configurations", "two_runs", "trigger_mode", "stop_while_frame_call_blocked", "triggers_interleaved_with_frames",
       "lockstep_trigger_frame", "frame_call_after_stop", "gap_in_hardware_ids", "pct_schedule", "preemptions", "f32", "failed_frame_call_then_restart", "edge_preemptions",
-      "set_refused_by_allocation_failure_then_retried", "frame_call_pending_across_restart", "frame_call_failed_across_restart", nullptr },
+      "set_refused_by_allocation_failure_then_retried", "frame_call_pending_across_restart", "frame_call_failed_across_restart", "live_set_other_enabled_value", "live_set_trigger_disabled", nullptr },
     { "C17 non-trivial: >=1 frame fetched AND (binning > 1 or a multi-byte type with an odd width), or >=2 accepted configurations on one camera",
-      "C18 non-trivial: >=2 runs on one camera, or a stop issued while a frame call was blocked, or >=3 triggers interleaved with frame calls",
+      "C18 non-trivial: >=2 runs on one camera, or a stop issued while a frame call was blocked, or >=3 triggers interleaved with frame calls, or a set on the running camera that changes only the trigger's enable value",
       nullptr },
 };
 
@@ -147,6 +151,7 @@ Ctx* g = nullptr;
 DeviceManager g_dm;
 int g_sim_fail_in = 0;      // simulated.camera.c's n-th realloc from now returns NULL (one shot)
 bool g_sim_fail_fired = false;
+std::map<void*, size_t> g_sim_sizes; // blocks handed to simulated.camera.c and their sizes (per case)
 
 void
 quiet_reporter(int, const char*, int, const char*, const char*)
@@ -639,6 +644,40 @@ actor_b(void*)
                 break;
             }
             case K_GET: check_get(x, "GET"); break;
+            case K_LIVESET: {
+                // The one re-configuration the camera supports while it runs ("fire if disabling the software
+                // trigger while live"): everything stays as it is except the trigger's enable field.  Another
+                // non-zero value means the same thing (still enabled: no frame without a trigger); zero
+                // releases the streamer, the run goes on free-running.
+                if (!x.running || !x.configured || x.runs.empty() || !x.runs.back().trigger_mode || (size_t)x.started_runs != x.runs.size())
+                    break;
+                static const uint8_t vals[6] = { 1, 2, 0x80, 0xfe, 0, 0x40 };
+                uint8_t v = vals[op.t.a % 6];
+                CameraProperties p = x.model;
+                if (v == p.input_triggers.frame_start.enable)
+                    v = (uint8_t)(v == 1 ? 0xfe : 1);
+                p.input_triggers.frame_start.enable = v;
+                x.c.trace("B: SET while running: trigger=%u (was %u), nothing else changes", v, x.model.input_triggers.frame_start.enable);
+                Run& run = x.runs.back();
+                if (!v) {
+                    run.trigger_mode = false; // before the call: frames flow as soon as the camera has it
+                    run.pure_lockstep = false;
+                    x.c.cls(CL_LIVESET_OFF);
+                } else
+                    x.c.cls(CL_LIVESET_SAME);
+                x.c.nontrivial(1);
+                if (camera_set(x.cam, &p) != Device_Ok) {
+                    // refused: the HAL has stopped the camera (as after a failed frame call)
+                    x.c.trace("    -> refused");
+                    x.running = false;
+                    run.stopped = true;
+                    x.configured = false;
+                    x.needs_reset = true;
+                    break;
+                }
+                x.model.input_triggers.frame_start.enable = v;
+                break;
+            }
             case K_FAILALLOC:
                 x.pending_alloc_fail = 1 + (op.t.a & 1);
                 x.c.trace("B: (the next SET meets an allocation failure at its buffer #%d)", x.pending_alloc_fail);
@@ -688,7 +727,18 @@ vh_sim_realloc(void* p, size_t n)
         g_sim_fail_fired = true;
         return nullptr; // the old block stays valid, as with the real realloc
     }
-    return realloc(p, n);
+    // A block that already has the requested size stays where it is, as with the C library's realloc
+    // (AddressSanitizer's always moves): re-configuring a running camera with the same shape does not pull
+    // the buffer away from under the streamer.
+    if (p && g_sim_sizes.count(p) && g_sim_sizes[p] == n)
+        return p;
+    void* q = realloc(p, n);
+    if (q) {
+        if (p)
+            g_sim_sizes.erase(p);
+        g_sim_sizes[q] = n;
+    }
+    return q;
 }
 // basics.driver.c refers to the storage devices; they are not part of this harness.
 extern "C" struct Storage*
@@ -715,6 +765,7 @@ vh_run(const VhTok* tape, size_t n, VhReport* rep)
     g = px;
     x.c.begin(rep, &kSpec);
     vsim::reset();
+    g_sim_sizes.clear();
     logger_set_reporter(quiet_reporter);
     x.driver = acquire_driver_init_v0(quiet_reporter);
 
